@@ -3,7 +3,13 @@ package lssim
 import (
 	"fmt"
 	"time"
+
+	"github.com/PowerDNS/lmdb-go/lmdb"
 )
+
+type lmdbTxn = lmdb.Txn
+
+const lmdbCreate = lmdb.Create
 
 func pick[T any](t *Tape, kind string, vals ...T) T {
 	return vals[t.Choose(kind, len(vals))]
@@ -231,6 +237,118 @@ func init() {
 			r.Counts["idle_checks"] = m.IdleChk
 			r.Counts["end_checks"] = m.EndChk
 			r.Nontrivial = m.IdleChk+m.EndChk > 0 && f.Stats.AppTxns > 0
+		},
+	}))
+}
+
+func init() {
+	RegisterProfile(fleetProfile("fleet-image", "C06", FleetRun{
+		Gen: func(t *Tape) FleetCfg {
+			c := swarmBase(t)
+			c.N = 1 + t.Weighted("cfg-n3", []int{2, 3, 1})
+			// several DBIs, multi-DBI transactions, big values, extension blocks
+			c.Work.DBIs = []string{"d1", "d2", "d3"}[:2+t.Choose("cfg-ndbi3", 2)]
+			c.Work.MaxOps = 2 + t.Choose("cfg-maxops3", 5)
+			c.Work.BigVal = pick(t, "cfg-big3", 0, 100, 300)
+			if c.Native {
+				c.Work.ExtraHdr = pick(t, "cfg-extra3", 0, 200, 500)
+			}
+			c.AppRate = pick(t, "cfg-apprate3", 300, 150, 500)
+			c.AppTxns = 8 + t.Choose("cfg-apptxns3", 40)
+			c.PreferPoints = []string{"sendonce:in-view", "sync:before-send", "sendonce:after-txn", "bucket:store"}
+			c.PreferBias = pick(t, "cfg-prefer3", 600, 200, 900)
+			c.CrashRate = pick(t, "cfg-crash3", 0, 0, 10)
+			c.Padding = t.Choose("cfg-padding", 4) == 3
+			return c
+		},
+		Mons: func(f *Fleet) []Monitor { return []Monitor{&MonC06{}} },
+		Post: func(f *Fleet, r *RunResult) {
+			m := f.Mon[0].(*MonC06)
+			r.Counts["snapshots_checked"] = m.Checked
+			r.Nontrivial = m.Checked >= 2 && f.Stats.AppTxns > 0
+		},
+	}))
+	RegisterProfile(fleetProfile("fleet-header", "C14", FleetRun{
+		Gen: func(t *Tape) FleetCfg {
+			c := swarmBase(t)
+			if c.Native {
+				c.Work.ExtraHdr = pick(t, "cfg-extra4", 300, 0, 700)
+			}
+			c.Padding = t.Choose("cfg-padding", 3) == 2
+			c.CrashRate = pick(t, "cfg-crash4", 0, 0, 10)
+			return c
+		},
+		Mons: func(f *Fleet) []Monitor { return []Monitor{&MonC14{}, &MonC06{Prop: "C14", SkipRaced: true}} },
+		Custom: func(f *Fleet) {
+			f.RunWorkload()
+			if f.Failed() {
+				return
+			}
+			m := f.Mon[0].(*MonC14)
+			// Fault side: a stored value that is too short or has another
+			// header version must be rejected with an error, not misread.
+			if f.Cfg.Native && f.T.Choose("bad-value", 3) > 0 {
+				f.Sim.Quiesce()
+				n := f.Nodes[f.T.Choose("bad-node", len(f.Nodes))]
+				if f.InRaceWindow(n) || !n.Running {
+					// would run into the known txn-id reuse race instead
+					f.Drain(f.Cfg.DrainTime())
+					return
+				}
+				var bad []byte
+				switch f.T.Choose("bad-kind", 4) {
+				case 0:
+					bad = make([]byte, f.T.Choose("bad-len", 24)) // too short (incl. empty)
+				case 1:
+					bad = MakeHdr(uint64(time.Now().UnixNano()), 1, 0, 0, []byte("v"))
+					bad[16] = byte(1 + f.T.Choose("bad-version", 255)) // other header version
+				case 2:
+					bad = MakeHdr(uint64(time.Now().UnixNano()), 1, 0, 0, []byte("short"))
+					bad[23] = byte(2 + f.T.Choose("bad-extra", 50)) // claims extension blocks that are not there
+				case 3:
+					bad = []byte("plain application value without any header!")
+					bad[16] = 7
+				}
+				if len(bad) == 0 {
+					bad = []byte{1}
+				}
+				var txn int64
+				err := n.Env.Update(func(txn2 *lmdbTxn) error {
+					txn = int64(txn2.ID())
+					dbi, err := txn2.OpenDBI(f.Cfg.Work.DBIs[0], lmdbCreate)
+					if err != nil {
+						return err
+					}
+					return txn2.Put(dbi, []byte("zz-malformed"), bad, 0)
+				})
+				if err != nil {
+					panic(err)
+				}
+				f.Sim.Logf("  app %s txn=%d stores malformed value %x", n.Name, txn, bad)
+				f.Sim.Probe("malformed-value-stored")
+				if m.BadNode == nil {
+					m.BadNode = map[*Node]int64{}
+				}
+				m.BadNode[n] = txn
+				// Observation would fail to parse this value; that is expected.
+			}
+			f.Drain(f.Cfg.DrainTime())
+			if f.Failed() {
+				return
+			}
+			for n, txn := range m.BadNode {
+				// The instance must have stopped with an error.
+				ret, err := n.SyncReturned(n.Inc)
+				if n.Running && !(ret && err != nil) {
+					f.Violate(Violation{"C14", "malformed-rejected", "no-error-on-malformed-value",
+						fmt.Sprintf("%s holds a malformed value since txn %d but its sync loop neither failed nor stopped (returned=%v err=%v)", n.Name, txn, ret, err)})
+				}
+			}
+		},
+		Post: func(f *Fleet, r *RunResult) {
+			m := f.Mon[0].(*MonC14)
+			r.Counts["values_checked"] = m.Checked
+			r.Nontrivial = m.Checked > 0
 		},
 	}))
 }
